@@ -99,7 +99,7 @@ class RefRow:
 class C08(PropBase):
     id = "C08"
     corr_fields = ['lat', 'lon', 'dist', 'cpr', 'cprage', 'posage']
-    lean_modules = ["SqModel.Props.C08", "SqModel.Props.C08Math", "SqModel.Proofs.Dispatch", "SqModel.Proofs.Bridge", "SqModel.Proofs.BridgePlane"]
+    lean_modules = ["SqModel.Props.C08", "SqModel.Props.C08Math", "SqModel.Proofs.Dispatch", "SqModel.Proofs.Bridge", "SqModel.Proofs.BridgeCpr", "SqModel.Proofs.BridgePlane"]
     extractors = ["nl", "dispatch", "trans"]
     rule = ("histories of 2-7 airborne-position squitters (TC 9-18, DF17) of one aircraft among others: true positions stratified over "
             "every NL transition latitude +-1e-6..3e-2 deg, even/odd latitude-zone edges, equator, +-86.9/86.9999, antimeridian, Greenwich, "
